@@ -23,7 +23,7 @@ def tie(ctx, broken):
     specs = [s for s in S.panel(ctx.tier, ctx.seed) if s["noise"] == "det"][:6]
     out = R.tie_skeleton(ctx, broken, [(s, None) for s in specs], "c06")
     R.apply_monitor(ctx, out, R.mon_c04)
-    n = 30 if ctx.quick else 90      # blocks of 5 (D = 1..5) cycling through the strata standard / offset / standard / wide / unbounded / huge
+    n = 35 if ctx.quick else 105     # blocks of 5 (D = 1..5) cycling through the strata standard / offset / standard / wide / unbounded / huge / lopsided
     with ProcessPoolExecutor(max_workers=14) as ex:
         res = list(ex.map(Qp.run_one, [(i, ctx.seed) for i in range(n)]))
     ok3 = [r for r in res if r["fval"] is not None and r["fval"] <= 1e-3]
